@@ -229,6 +229,8 @@ def make_ds(
 
     if isinstance(name, str):
         name = dns.name.from_text(name, origin)
+    elif origin is not None:
+        name = name.derelativize(origin)
     wire = name.canonicalize().to_wire()
     kwire = key.to_wire(origin=origin)
     assert wire is not None and kwire is not None  # for mypy
